@@ -259,6 +259,24 @@ def load_report(path):
         return json.load(f)
 
 
+def run_tlapm(module, wd, timeout=900, threads=4):
+    """Check the TLAPS proofs of spec/proofs/<module>.tla (unbounded safety of a small spec).  Returns the
+    number of proved obligations; anything else than "All N obligations proved" is a tool-level failure
+    (the proof, not the code, is what broke)."""
+    import re as _re, shutil as _sh
+    src = os.path.join(VERIF, "spec", "proofs", module + ".tla")
+    cache = os.path.join(wd, "tlacache_" + module)
+    _sh.rmtree(cache, ignore_errors=True)     # no fingerprint reuse: every run proves from scratch
+    t0 = time.time()
+    p = subprocess.run(["timeout", str(timeout), "tlapm", "--threads", str(threads), "--cache-dir", cache,
+                        "-I", os.path.join(VERIF, "spec"), src], stdout=subprocess.PIPE, stderr=subprocess.STDOUT, text=True)
+    m = _re.search(r"All (\d+) obligations? proved", p.stdout)
+    log("[tlapm] %s: %s, %.1fs" % (module, m.group(0) if m else "NOT PROVED rc=%d" % p.returncode, time.time() - t0))
+    if not m:
+        raise ToolError("TLAPS proof %s did not go through: %s" % (module, p.stdout[-1500:]))
+    return int(m.group(1))
+
+
 def trace_validate(module, trace_path, wd, name, timeout=1800, heap="4g", extra_env=None, cfg_extra=""):
     """M3: validate an NDJSON trace recorded from the implementation against spec/<module>.tla.
     The trace spec prints one JSON line per disagreement and a final {"ev":"DONE","n":..} line."""
